@@ -24,6 +24,7 @@ THEOREMS = [
     "C07_bind_error",
     "C07_result_passthrough",
     "C07_generated_good",
+    "C07_source_wrapper",
 ]
 RULE = (
     "generated signatures (1..6 parameters over all five kinds, defaults, annotated and unannotated, "
